@@ -691,6 +691,12 @@ def remove_tensor(expr: e.Expr, t_name: str) -> dict:
                 remaining_term *= obj
         if not tensors:  # could not find the tensor
             return {("none",): term}
+        # remove the occurences in the order of their blocks (the order of
+        # the blocks in the key) to obtain consistent indices in all terms
+        tensors.sort(key=lambda o: (
+            o.space if all(c == "n" for c in o.spin)
+            else f"{o.space}_{o.spin}"
+        ))
         # extract all the target indices and split according to their space
         target_indices = {}
         for s in term.target:
